@@ -225,6 +225,12 @@ def run(pid, tier, seed):
         vlib.record_trace(exe, ["record", "--seed", seed * 1000 + k, "--runs", nruns, "--len", length,
                                 "--noise", noise, "--ops", ",".join(RECORD_OPS[pid])], tp, timeout=300)
         tr_specs.append(tp)
+    # every run starts right before the end of a string storage block: the spellings of the history lie on both sides of the change
+    # of block (short runs, so that the first words of the run are asked for again soon after the change)
+    tp = os.path.join(trace_dir, "%s-%s-%d-edge.ndjson" % (pid, tier, seed))
+    vlib.record_trace(exe, ["record", "--seed", seed * 1000 + 99, "--runs", 8 if q else 40, "--len", 60, "--noise", 0, "--edge", 1,
+                            "--ops", ",".join(RECORD_OPS[pid])], tp, timeout=300)
+    tr_specs.append(tp)
     for (fname, focus, wordset, fops) in FOCUSED.get(pid, []):
         tp = os.path.join(trace_dir, "%s-%s-%d-%s.ndjson" % (pid, tier, seed, fname))
         vlib.record_trace(exe, ["record", "--seed", seed * 1000 + 77, "--runs", 3 if q else 12, "--len", 400 if q else 600,
